@@ -14,12 +14,12 @@ from ....model.levymodel.levymodel import (
     LevyRepresentation,
     Cumulant,
 )
-from ....tools.parameter import positive, strictly_positive
+from ....tools.parameter import positive, strictly_positive, between
 
 
 class HEMParameters(Parameters):
     sigma = positive("sigma")
-    p = strictly_positive("p")
+    p = between(0.0, 1.0)("p")
     eta1 = strictly_positive("eta1")
     eta2 = strictly_positive("eta2")
     intensity = positive("intensity")
